@@ -213,6 +213,80 @@ def eval_case(c):
     return res, poisoned
 
 
+def all_draw_objects(e, acc, seen):
+    """(name, drawType, drawId) of every bioDraws OBJECT of the formula"""
+    if id(e) in seen:
+        return acc
+    seen.add(id(e))
+    if type(e).__name__ == 'bioDraws':
+        acc.append([e.name, e.drawType, None if e.drawId is None else int(e.drawId)])
+    for ch in e.get_children():
+        all_draw_objects(ch, acc, seen)
+    return acc
+
+
+def eval_multi(c):
+    """several formulas side by side: one IdManager([f0, f1, ...]) (path 'gv': each formula evaluated by
+    get_value_c(prepare_ids=False) with the shared numbering and the shared table) and one
+    BIOGEME(db, {'f0': ..., 'f1': ...}).simulate (path 'sim')"""
+    from biogeme.expressions import IdManager
+    res = {}
+    calls = []
+    poisoned = False
+    rec = Recorder()
+    try:
+        exprs = [build(t, c.get('betas') or {}) for t in c['trees']]
+        res['trees_back'] = [expr_to_json(e) for e in exprs]
+        db = Database('c10m', pd.DataFrame(c['rows']))
+        gens = c.get('gens') or []
+        db.set_random_number_generators({g[0]: (make_generator(g[1], g[2], calls, g[0]), f'tagged {g[2]}') for g in gens})
+        betas = {k: v['value'] for k, v in (c.get('betas') or {}).items() if not v['fixed']}
+        R = c.get('R', 1)
+        for path in c.get('paths', ['gv', 'sim']):
+            s0, c0 = len(rec.set_draws), len(calls)
+            out = {}
+            try:
+                if path == 'gv':
+                    for e in exprs:
+                        e.set_id_manager(None)
+                    im = IdManager(exprs, db, R)
+                    for e in exprs:
+                        e.set_id_manager(im)
+                    out['table'] = table_out(db.theDraws, True) if db.theDraws is not None else None
+                    out['values'] = [[num(x) for x in np.atleast_1d(
+                        e.get_value_c(database=db, betas=betas or None, number_of_draws=R, prepare_ids=False))] for e in exprs]
+                else:
+                    B = bio.BIOGEME(db, {f'f{i}': e for i, e in enumerate(exprs)}, parameters=Parameters(), number_of_draws=R,
+                                    number_of_threads=c.get('threads', 1), seed=c.get('seed', 0))
+                    B.generate_html = False
+                    B.generate_pickle = False
+                    sim = B.simulate(betas)
+                    out['values'] = [[num(x) for x in sim[f'f{i}'].tolist()] for i in range(len(exprs))]
+                    out['table'] = table_out(rec.set_draws[-1], True) if len(rec.set_draws) > s0 else None
+                    im = B.id_manager
+                out['names'] = list(im.draws.names)
+                out['indices'] = {n: int(i) for n, i in im.draws.indices.items()}
+                out['types'] = dict(im.draw_types())
+                objs = []
+                seen = set()
+                for e in exprs:
+                    all_draw_objects(e, objs, seen)
+                out['objects'] = objs
+            except Exception as ex:  # noqa
+                out['exc'] = exc(ex)
+                if is_engine_exception(out['exc']) or 'cpp' in out['exc'] or '.cc' in out['exc']:
+                    poisoned = True
+            out['gen_calls'] = calls[c0:]
+            res[path] = out
+            if poisoned:
+                break
+    except Exception as ex:  # noqa
+        res['build_exc'] = exc(ex)
+    finally:
+        rec.close()
+    return res, poisoned
+
+
 def table_case(c):
     """direct calls: a sequence of set_random_number_generators, an optional direct write into the user
     dictionary (bypassing the check), then generate_draws(types, names, R)"""
@@ -263,7 +337,7 @@ def main():
             if payload['mode'] == 'table':
                 out.append(table_case(c))
             else:
-                r, poisoned = eval_case(c)
+                r, poisoned = eval_multi(c) if 'trees' in c else eval_case(c)
                 out.append(r)
         except Exception as ex:  # noqa
             out.append({'harness_exc': exc(ex)})
